@@ -64,6 +64,22 @@ CLAIMED["C04"] = ("model_checking",
   "Trusted: TLC, harness/project.go, harness/schema2go.go.",
   "DESIGN.md section 6 C04")
 
+CLAIMED["C13"] = ("model_checking",
+  "TLA+ reference decoder + GoModel!Rep (both directions) + LogicalTime big-number relation model-checked (MC_Wire, MC_Time); Codec.Write/Read of codecs built from caller-written schemas trace-validated by TLC under the caller's schema (Trace_Codec!FailsCS)",
+  "For every (Go field type x caller schema) pair of the table (null first or second; int/long x int,int16,int32,int64; float/double x float32,float64; fixed; date/timestamp-millis/-micros/plain long/string x time.Time; null.* under each primitive; pointers) alone, as array item, map value and nested-record field, and seeded random records of 1-5 such fields: if the codec builds, TLC decodes the written bytes with the reference decoder under the caller's schema (nothing left over), demands they denote the value (branch, width, unit, content), that Read returns what the bytes denote and the original value, and that Skip consumes them.",
+  "Trusted: TLC, harness/project.go. Values are generated inside the schema type's range (32-bit for int schemas, unit multiples and UTC for long-based times).",
+  "DESIGN.md section 6 C13")
+CLAIMED["C18"] = ("model_checking",
+  "TLA+ RFC 3339 grammar over byte sequences (TimeParse) model-checked against a reference formatter (MC_Time: parse(format(t)) on a civil-time grid, all fraction lengths/separators/offsets); every recorded parse of the real parser trace-validated (Trace_Codec!FailsTimeParse) with time.Parse logged as cross-check of the reference",
+  "Every string of the grammar-directed grid and of the seeded random families is parsed by the real code through three entry points; TLC demands the same civil time and UTC offset as the TLA+ grammar (which must itself agree with time.Parse on every string it accepts, else exit 2), midnight UTC for date-only strings, identity for format-then-parse, and no panic for ~1,000 damaged strings.",
+  "Trusted: TLC, harness/project.go (time.Time accessors). time.Parse is more lenient than RFC 3339 (one-digit hours, +24:00); such strings are outside the property's domain and only no-panic is demanded.",
+  "DESIGN.md section 6 C18")
+CLAIMED["C19"] = ("model_checking",
+  "TLA+ LogicalTime relation (stored integer <-> instant in mixed radix with base-256 big numbers, MC_Time checks unit consistency) ; recorded DateCodec/LongCodec reads of stored integers and writes of times trace-validated by TLC (Trace_Codec!FailsCSRead / FailsCS)",
+  "Read direction: boundary values, a stride across all int32 day counts and random longs over the int64-nanosecond-representable range are decoded under date / timestamp-millis / timestamp-micros / plain long and TLC demands exactly the instant days*86400 s, stored*10^6 ns, stored*10^3 ns, stored ns (UTC), including before 1970. Write direction: exact multiples must store exactly that integer; other instants floor or floor+1; reading the written bytes must give what they denote.",
+  "Trusted: TLC, harness/project.go (Unix, Date, Clock). int32 day counts are strided + random, not exhaustive.",
+  "DESIGN.md section 6 C19")
+
 NOT_APPLICABLE = {}
 
 def main():
